@@ -300,6 +300,18 @@ UNITS = [
       props={'memsafe': ['C13'], 'ub': ['C13']},
       assumes=['plain symbolic execution of the real Parameter::write / writeImbricatedParameter / toUpper over the stream model; values and '
                'shape are consistent (what the reader produces for a BYTE record: unit B_Parameter_read)']),
+    U('B_Parameter_write_float_1d', 'contracts/bounded_parameter_write.c', 'h_B_Parameter_write_float', [], ['C01', 'C03', 'C04', 'C12', 'C14', 'C13'], mode='bmc', defines=['VF_ND=1'],
+      unwind=6, unwindset={'vf_stream_write.0': 18}, timeout=1200, level='B', object_bits=12,
+      bound='FLOAT parameter, name 1..2 characters, description <= 2, 1 dimension(s) of at most 2, start offset <= 1',
+      props={'memsafe': ['C13'], 'ub': ['C13']},
+      assumes=['plain symbolic execution of the real Parameter::write / writeImbricatedParameter / toUpper over the stream model; values and '
+               'shape are consistent (what Parameter::set guarantees: units Parameter_set_float, isDimensionConsistent)']),
+    U('B_Parameter_write_float_2d', 'contracts/bounded_parameter_write.c', 'h_B_Parameter_write_float', [], ['C01', 'C03', 'C04', 'C12', 'C14', 'C13'], mode='bmc', defines=['VF_ND=2'],
+      unwind=6, unwindset={'vf_stream_write.0': 18}, timeout=1200, level='B', object_bits=12,
+      bound='FLOAT parameter, name 1..2 characters, description <= 2, 2 dimension(s) of at most 2, start offset <= 1',
+      props={'memsafe': ['C13'], 'ub': ['C13']},
+      assumes=['plain symbolic execution of the real Parameter::write / writeImbricatedParameter / toUpper over the stream model; values and '
+               'shape are consistent (what Parameter::set guarantees: units Parameter_set_float, isDimensionConsistent)']),
     U('B_Parameter_write_char1d_bmc', 'contracts/bounded_parameter_write.c', 'h_B_Parameter_write_char1d', [], ['C03', 'C04', 'C14', 'C13'], mode='bmc',
       unwind=6, unwindset={'vf_stream_write.0': 6}, timeout=1200, level='B', object_bits=12,
       bound='one-dimensional CHAR parameter of declared width 1..4, text no longer than the width, name 1..2 characters, description <= 2',
